@@ -439,7 +439,12 @@ def drive(prop_id, tier, seed_value, only=None, jobs=None, scale=1.0,
     for sub in prop.subchecks:
         if only and sub.name not in only:
             continue
-        n = sub.quick if tier == "quick" else sub.thorough
+        # thorough = as deep as fits a budget of roughly ten minutes per property on 16 cores:
+        # the declared thorough count, capped at THOROUGH_FACTOR x the quick count
+        factor = float(os.environ.get("VERIF_THOROUGH_FACTOR", "15"))
+        n = sub.quick if tier == "quick" else min(sub.thorough, int(sub.quick * factor))
+        if sub.exhaustive:
+            n = sub.quick
         n = max(1, int(math.ceil(n * scale)))
         if tier == "quick":
             shards = sub.quick_shards or max(1, min(jobs, n // 40))
